@@ -6,7 +6,7 @@
    Spec:  C04.delete_spec = the document with exactly the designated children
    removed (everything else untouched, relative order kept by construction). *)
 From Coq Require Import List ZArith NArith Bool String.
-From YP Require Import Outcome PyStr PyVal Doc Searches Mutate C04spec C04lists C04delete.
+From YP Require Import Outcome PyStr PyVal Doc Searches Mutate C04spec C04lists C04delete C04order.
 Import ListNotations.
 Open Scope string_scope.
 
@@ -20,6 +20,33 @@ Theorem C04_delete_exact_partial : forall d cs,
   delete_nodes cs d = Done (delete_spec d (map pc_pair (del_order cs))).
 Proof. exact delete_exact. Qed.
 Print Assumptions C04_delete_exact_partial.
+
+(* The guard is implied by what the read side promises for one path: in gather
+   order the coordinates locate distinct nodes, in document order within each
+   parent (C04spec.doc_ordered, computable; "results come in document order,
+   each once" is the read-side theorem that discharges it). *)
+Theorem C04_guard_from_document_order : forall d ps,
+  wf_doc d -> doc_ordered d ps = true -> no_dup_no_disorder d (rev ps) = true.
+Proof. exact ordered_guard. Qed.
+Print Assumptions C04_guard_from_document_order.
+
+(* Hence: whatever was gathered (Collector nesting included), if the
+   coordinates in gather order locate distinct nodes in document order within
+   each parent, exactly those nodes are removed and nothing else changes. *)
+Theorem C04_delete_exact_ordered : forall d cs,
+  wf_doc d ->
+  doc_ordered d (rev (map pc_pair (del_order cs))) = true ->
+  delete_nodes cs d = Done (delete_spec d (rev (map pc_pair (del_order cs)))).
+Proof. exact delete_exact_ordered. Qed.
+Print Assumptions C04_delete_exact_ordered.
+
+(* ... in particular for the plain coordinates of a single path without Collectors. *)
+Theorem C04_delete_exact_single_path : forall d ps,
+  wf_doc d ->
+  doc_ordered d (map pc_pair ps) = true ->
+  delete_nodes (map (fun p => CNode p false) ps) d = Done (delete_spec d (map pc_pair ps)).
+Proof. exact delete_exact_plain. Qed.
+Print Assumptions C04_delete_exact_single_path.
 
 (* Deleting the document root is refused with a YAML Path error and changes
    nothing (the root coordinate is the one the loop meets first). *)
@@ -60,6 +87,20 @@ Proof. vm_compute. repeat split. Qed.
 Example C04_nested_nonvacuous :
   no_dup_no_disorder doc1 (map pc_pair (del_order [plain 0 (PStr "a"); plain 2 (PInt 1)])) = true /\
   delete_nodes [plain 0 (PStr "a"); plain 2 (PInt 1)] doc1 = Done (NMap (ct 0) [ (sk 6 "b", iv 7 5) ]).
+Proof. vm_compute. repeat split. Qed.
+
+(* non-vacuity of the document-order hypothesis: a.* style gather a[0], a[1], a[2], a[3] and b, in document order;
+   a[-1] alone in its parent; and it is NOT satisfied by a duplicate or by a reversed pair *)
+Example C04_ordered_nonvacuous :
+  doc_ordered doc1 [(Some 2%N, PInt 0); (Some 2%N, PInt 1); (Some 2%N, PInt 2); (Some 2%N, PInt 3); (Some 0%N, PStr "b")] = true /\
+  doc_ordered doc1 [(Some 0%N, PStr "a"); (Some 2%N, PInt (-1))] = true /\
+  doc_ordered doc1 [(Some 2%N, PInt 0); (Some 2%N, PInt 0)] = false /\
+  doc_ordered doc1 [(Some 2%N, PInt 2); (Some 2%N, PInt 0)] = false /\
+  doc_ordered doc1 [(Some 2%N, PInt (-2)); (Some 2%N, PInt 3)] = false /\
+  delete_nodes (map (fun p => CNode p false)
+                  [mkpc (Some 2%N) (PInt 0); mkpc (Some 2%N) (PInt 1); mkpc (Some 2%N) (PInt 2); mkpc (Some 2%N) (PInt 3);
+                   mkpc (Some 0%N) (PStr "b")]) doc1
+  = Done (NMap (ct 0) [ (sk 1 "a", NSeq (ct 2) []) ]).
 Proof. vm_compute. repeat split. Qed.
 
 Example C04_root_nonvacuous :
